@@ -74,16 +74,19 @@ fn env0_strategy() -> impl Strategy<Value = Vec<(u16, Vec<u8>)>> {
 
 #[derive(Clone, Debug)]
 pub struct WriteCase {
+    /// an earlier write that FAILS part-way (a variable name too long for a file name): nothing of it may survive
+    poison: Option<(u8, u8)>,
     old: Vec<EnvEntry>,
     new: Vec<EnvEntry>,
     env0s: Vec<Vec<(u16, Vec<u8>)>>,
 }
 
 fn write_case_json(c: &WriteCase) -> Value {
-    json!({"old": entries_to_json(&c.old), "new": entries_to_json(&c.new), "env0s": c.env0s.iter().map(|e| e.iter().map(|(i, v)| json!([i, crate::core::bytes_to_json(v)])).collect::<Vec<_>>()).collect::<Vec<_>>()})
+    json!({"poison": c.poison.map(|(a, b)| json!([a, b])), "old": entries_to_json(&c.old), "new": entries_to_json(&c.new), "env0s": c.env0s.iter().map(|e| e.iter().map(|(i, v)| json!([i, crate::core::bytes_to_json(v)])).collect::<Vec<_>>()).collect::<Vec<_>>()})
 }
 fn write_case_from_json(v: &Value) -> WriteCase {
     WriteCase {
+        poison: v["poison"].as_array().map(|a| (a[0].as_u64().unwrap() as u8, a[1].as_u64().unwrap() as u8)),
         old: entries_from_json(&v["old"]),
         new: entries_from_json(&v["new"]),
         env0s: v["env0s"].as_array().unwrap().iter().map(|e| e.as_array().unwrap().iter().map(|p| (p[0].as_u64().unwrap() as u16, crate::core::json_to_bytes(&p[1]))).collect()).collect(),
@@ -186,6 +189,19 @@ fn check_write(ctx: &Ctx, scratch: &Path, c: &WriteCase) -> Check {
     make_canary(&dir);
     let (_, _, canary_before) = split_snapshot(&fsutil::snapshot(&dir));
     let r = (|| -> Check {
+        if let Some((scope_sel, beh_sel)) = c.poison {
+            // entries are written in (behaviour, name) order: a few good ones first, then one whose file name is too long
+            let scope = [Sc::All, Sc::Build, Sc::Launch, Sc::Process("web".into())][scope_sel as usize % 4].clone();
+            let beh = BEHS[beh_sel as usize % 5];
+            let mut poisoned = vec![
+                EnvEntry { scope: scope.clone(), beh: Beh::Append, name: b"A_STAGED_BEFORE_THE_FAILURE".to_vec(), value: b"stale".to_vec() },
+                EnvEntry { scope: scope.clone(), beh, name: b"B_STAGED".to_vec(), value: b"stale".to_vec() },
+                EnvEntry { scope: scope.clone(), beh: Beh::Prepend, name: vec![b'N'; 250], value: b"x".to_vec() },
+            ];
+            poisoned.push(EnvEntry { scope: Sc::Launch, beh: Beh::Override, name: b"ZZ".to_vec(), value: b"stale".to_vec() });
+            // the result (an error) is not judged; what the directory looks like after the NEXT successful write is
+            let _ = to_layer_env(&poisoned).write_to_layer_dir(&dir);
+        }
         let old = to_layer_env(&c.old);
         old.write_to_layer_dir(&dir).map_err(|e| Fail::new("C03:write-failed", format!("old: {e}")))?;
         let (files_old, _, _) = split_snapshot(&fsutil::snapshot(&dir));
@@ -416,7 +432,7 @@ fn check_read(ctx: &Ctx, scratch: &Path, c: &ReadCase) -> Check {
 }
 
 pub fn run(ctx: &Ctx) {
-    ctx.set_rule("write side: pairs (old, new) of layer environments (0..9 entries; scopes all/build/launch/process p; five behaviours; names = non-empty byte strings without '/' and NUL, weighted to dots, '.x', 'x.', 'A.append', '..', non-UTF-8, spaces, '=', up to 48 bytes; values = arbitrary bytes incl. empty, NUL, newlines, 200 bytes) (independent, or neighbours: one scope emptied / one process type dropped / one entry dropped / one value changed) written successively into one layer directory holding canary content (exec.d/p, data/, env.txt, envoy/, env.launchx, a symlink). Oracle: regular files under env, env.build, env.launch = exactly the spec rendering of `new`; canary snapshot identical; read-back == written value; apply equals the reference for scopes all/build/launch/each process/unknown process x starting envs. read side: spec-shaped directories built by the harness (NAME, NAME.<known>, NAME.<unknown suffix>, directories inside env dirs, per-process directories) read through read_from_layer_dir and compared with a reference reader (last-dot rule; suffix-less => override; unknown/non-UTF-8 suffix => ignored) + reference apply. Non-trivial (write): pair differs, old has a file new lacks, and new uses >=2 scopes or a dotted/non-UTF-8 name or a process scope; (read): case has an unknown-suffix or suffix-less file plus a per-process or nested directory; distinct = hash of the case.");
+    ctx.set_rule("write side: pairs (old, new) of layer environments (0..9 entries; scopes all/build/launch/process p; five behaviours; names = non-empty byte strings without '/' and NUL, weighted to dots, '.x', 'x.', 'A.append', '..', non-UTF-8, spaces, '=', up to 48 bytes; values = arbitrary bytes incl. empty, NUL, newlines, 200 bytes) (independent, or neighbours: one scope emptied / one process type dropped / one entry dropped / one value changed) written successively into one layer directory holding canary content (in 1 of 4 cases after an earlier write that fails part-way because a variable name is too long for a file name) (exec.d/p, data/, env.txt, envoy/, env.launchx, a symlink). Oracle: regular files under env, env.build, env.launch = exactly the spec rendering of `new`; canary snapshot identical; read-back == written value; apply equals the reference for scopes all/build/launch/each process/unknown process x starting envs. read side: spec-shaped directories built by the harness (NAME, NAME.<known>, NAME.<unknown suffix>, directories inside env dirs, per-process directories) read through read_from_layer_dir and compared with a reference reader (last-dot rule; suffix-less => override; unknown/non-UTF-8 suffix => ignored) + reference apply. Non-trivial (write): pair differs, old has a file new lacks, and new uses >=2 scopes or a dotted/non-UTF-8 name or a process scope; (read): case has an unknown-suffix or suffix-less file plus a per-process or nested directory; distinct = hash of the case.");
     ctx.assume("process names are valid ProcessType strings other than '.' and '..' whose last dot-suffix is not a behaviour word; a suffix-less NAME and NAME.override are never placed in the same directory");
     let scratch = Scratch::new("c03");
     for (_p, v) in ctx.regress_files() {
@@ -449,7 +465,8 @@ pub fn run(ctx: &Ctx) {
             }
             _ => new,
         };
-        WriteCase { old, new, env0s }
+        let poison = if mode == 3 || (idx % 7 == 0) { Some(((idx >> 3) as u8, (idx >> 5) as u8)) } else { None };
+        WriteCase { poison, old, new, env0s }
     });
     ctx.run_prop("write", wstrat, ctx.tier.pick(2500, 50_000), write_case_json, |c| {
         if write_nontrivial(c) {
